@@ -63,6 +63,9 @@ func Scenarios(prop string) []gx.Sc {
 			{Name: "cons?n=2&cuts=1&fmts=5&np=2&slow=1&buf=1&closeany=1&faults=" + faults + ",out-of-range&gates=" + gates, Q: 2, T: 3},
 			{Name: "cons?n=2&cuts=1&fmts=5&nb=2&move=1&closeany=1&faults=" + faults + "&gates=" + gates, Q: 2, T: 3},
 			{Name: "cons?n=2&cuts=1&fmts=5&np=2&slow=1&buf=0&closeany=1&faults=drop&gates=" + gates + ",bc.round", Q: 3, T: 4},
+			// ... and with consumer and client closed right after AsyncClose of the partition consumer (a metadata answer may
+			// arrive after the client was closed)
+			{Name: "cons?n=2&cuts=1&fmts=5&nb=2&move=1&app=1&closeany=1&aclose=1&mfaults=leader-unavailable&faults=notleader&gates=" + gates, Q: 2, T: 3},
 			// close while a re-dispatch is under way and fails (the partition's leader moved, metadata says "no leader" for a while)
 			{Name: "cons?n=2&cuts=1&fmts=5&nb=2&move=1&app=1&closeany=1&mfaults=leader-unavailable&faults=notleader&gates=" + gates, Q: 3, T: 4},
 			{Name: "cons?n=3&cuts=3&fmts=5&np=2&nb=2&move=1&app=3&buf=1&closeany=1&mfaults=leader-unavailable&faults=notleader,drop&gates=" + gates, Q: 2, T: 3},
